@@ -626,8 +626,12 @@ Definition targets_clean (f : fs) : Prop := forall k m t, f !! k = Some (Link m 
 Definition node_cost (n : node) : nat :=
   match n with Link _ t => length (split_sep t) | _ => 0 end.
 
-(** the model's fuel bound: key depth + components of a link target +
-    components of the name stay below the walk budget *)
+(** a size bound on the tree relative to the constant part of the walk
+    budget: key depth + components of a link target + components of the name.
+    It was a hypothesis of the C16 theorems while [resolve] ran with the
+    constant budget [walk_fuel]; with the budget [walk_fuel + length p] no
+    theorem needs it any more ([size_okb] is still evaluated in the necessity
+    examples below). *)
 Definition size_ok (f : fs) (N : nat) : Prop :=
   forall k n, f !! k = Some n -> length k + node_cost n + N + 3 < walk_fuel.
 
@@ -747,26 +751,24 @@ Proof. intros s q q1 rest g fi t H1 H2 H3. cbn [through_link]. rewrite H1, H2, H
 
 (** [Lstat] / [Readlink] of a key path below link-free parents *)
 Lemma lstat_key : forall s k c,
-  wf (st_fs s) -> Forall pg k -> pg c -> NL (st_fs s) k -> length k + 3 < walk_fuel ->
+  wf (st_fs s) -> Forall pg k -> pg c -> NL (st_fs s) k ->
   match st_fs s !! (k ++ [c]) with
   | Some n => fs_lstat s (kpath (k ++ [c])) = Ok (info_of (base (kpath (k ++ [c]))) n) /\
               (forall m t, n = Link m t -> fs_readlink s (kpath (k ++ [c])) = Ok t)
   | None => exists e, fs_lstat s (kpath (k ++ [c])) = Err e /\ is_not_found e = true
   end.
 Proof.
-  intros s k c Hwf Hk Hc Hnl Hlen.
+  intros s k c Hwf Hk Hc Hnl.
   assert (Hkc : Forall pg (k ++ [c])) by (apply Forall_app; split; [exact Hk | constructor; [exact Hc | constructor]]).
   pose proof (nolinkpar_of_NL (st_fs s) k c Hk Hc Hnl) as Hnlp.
   pose proof (comps_kpath_pg _ Hkc) as Ec.
-  assert (Hb : length (comps (kpath (k ++ [c]))) + 2 < walk_fuel).
-  { rewrite Ec, app_length. cbn [length]. lia. }
-  pose proof (fs_lstat_nolinkpar s (kpath (k ++ [c])) Hwf Hb Hnlp) as HL.
+  pose proof (fs_lstat_nolinkpar s (kpath (k ++ [c])) Hwf Hnlp) as HL.
   rewrite Ec in HL.
   destruct (st_fs s !! (k ++ [c])) as [n|] eqn:El; [|exact HL].
   split; [exact HL|]. intros m t En. subst n.
   assert (El' : st_fs s !! comps (kpath (k ++ [c])) = Some (Link m t)) by (rewrite Ec; exact El).
   pose proof (fs_lstat_nolinkpar_present (st_fs s) _ _ Hwf Hnlp El') as Hdirect.
-  exact (fs_readlink_direct s _ m t Hdirect Hb El').
+  exact (fs_readlink_direct s _ m t Hdirect El').
 Qed.
 
 Section Loop.
@@ -774,8 +776,6 @@ Section Loop.
   Notation f := (st_fs s).
   Hypothesis Hwf : wf f.
   Hypothesis Htc : targets_clean f.
-  Variable N : nat.
-  Hypothesis Hsize : size_ok f N.
   Variable final : str.
 
   Lemma NL_root : NL f [].
@@ -786,20 +786,19 @@ Section Loop.
 
   (** what [Lstat] says about the parents of a key path, read back as [NL] *)
   Lemma NL_of_lstat : forall lk,
-    Forall pg lk -> length lk + 2 < walk_fuel ->
+    Forall pg lk ->
     (forall pre post, lk = pre ++ post -> lstat_is_link s (kpath pre) = false) ->
     NL f lk.
   Proof.
-    induction lk as [|x lk' IH] using rev_ind; intros Hpg Hlen Hls.
+    induction lk as [|x lk' IH] using rev_ind; intros Hpg Hls.
     - exact NL_root.
     - apply Forall_app in Hpg. destruct Hpg as [Hpg' Hx].
       inversion Hx as [|x' l' Hxp _]; subst x' l'.
-      rewrite app_length in Hlen. cbn [length] in Hlen.
       assert (Hnl' : NL f lk').
-      { apply IH; [exact Hpg' | lia |].
+      { apply IH; [exact Hpg' |].
         intros pre post E. apply (Hls pre (post ++ [x])). rewrite E, app_assoc. reflexivity. }
       apply NL_snoc; [exact Hnl'|].
-      pose proof (lstat_key s lk' x Hwf Hpg' Hxp Hnl' ltac:(lia)) as HL.
+      pose proof (lstat_key s lk' x Hwf Hpg' Hxp Hnl') as HL.
       pose proof (Hls (lk' ++ [x]) [] ltac:(rewrite app_nil_r; reflexivity)) as Hl.
       remember (kpath (lk' ++ [x])) as p eqn:Ep.
       intros m t E. norm_keys. rewrite E in HL. destruct HL as [HL _].
@@ -816,7 +815,7 @@ Section Loop.
   Definition post (k : key) (rest : list str) (rp : str) : Prop :=
     exists d rest' k',
       rest = d ++ rest' /\ rest' <> [] /\ rp = kpath (k' ++ rest') /\
-      Forall pg k' /\ NL f k' /\ length k' + N + 3 < walk_fuel /\
+      Forall pg k' /\ NL f k' /\
       (length rest' = 1 \/ f !! (k' ++ firstn 1 rest') = None) /\
       transfers k d k' /\
       (* every consumed component existed below the resolution of what precedes it *)
@@ -827,11 +826,11 @@ Section Loop.
   Proof. intros k X fl r _ H. exact H. Qed.
 
   Lemma post_stop : forall k rest,
-    rest <> [] -> Forall pg k -> NL f k -> length k + N + 3 < walk_fuel ->
+    rest <> [] -> Forall pg k -> NL f k ->
     (length rest = 1 \/ f !! (k ++ firstn 1 rest) = None) ->
     post k rest (kpath (k ++ rest)).
   Proof.
-    intros k rest Hne Hk Hnl Hlen Hstop. exists [], rest, k.
+    intros k rest Hne Hk Hnl Hstop. exists [], rest, k.
     repeat split; try assumption.
     - apply transfers_refl.
     - intros d1 x d2 E. destruct d1; discriminate E.
@@ -861,7 +860,7 @@ Section Loop.
     post kn rest1 rp -> post k (c :: rest1) rp.
   Proof.
     intros k kn c rest1 rp Hk Hnl Hpres Hlift
-      (d & rest' & k' & E & Hne & Erp & Hk' & Hnl' & Hlen' & Hstop & Htr & Hmid).
+      (d & rest' & k' & E & Hne & Erp & Hk' & Hnl' & Hstop & Htr & Hmid).
     exists (c :: d), rest', k'. repeat split; try assumption.
     - rewrite E. reflexivity.
     - apply Hlift. exact Htr.
@@ -904,31 +903,29 @@ Section Loop.
   Qed.
 
   Lemma rloop_inv : forall rest k acc g,
-    rest <> [] -> Forall pg rest -> length rest <= N ->
-    Forall pg k -> NL f k -> length k + N + 3 < walk_fuel ->
+    rest <> [] -> Forall pg rest ->
+    Forall pg k -> NL f k ->
     Forall2 (fun x pre => g x = kpath (k ++ pre)) acc (prefixes_from [] rest) ->
     g final = kpath (k ++ rest) ->
     through_link s acc g = false ->
     exists rp o, rloop s acc g final = Ok (rp, o) /\ post k rest rp.
   Proof.
-    induction rest as [|c rest1 IH]; intros k acc g Hne Hrest HN Hk Hnl Hlen Hacc Hfin Htl.
+    induction rest as [|c rest1 IH]; intros k acc g Hne Hrest Hk Hnl Hacc Hfin Htl.
     - contradiction Hne. reflexivity.
     - inversion Hrest as [|c' r' Hc Hrest1]; subst c' r'.
       rewrite prefixes_from_nil_cons in Hacc.
       inversion Hacc as [|q pre0 acc1 pres Hq Hacc1]; subst.
       apply Forall2_map_r' in Hacc1.
       assert (Hkc : Forall pg (k ++ [c])) by (apply Forall_app; split; [exact Hk | constructor; [exact Hc | constructor]]).
-      pose proof (lstat_key s k c Hwf Hk Hc Hnl ltac:(lia)) as HL.
+      pose proof (lstat_key s k c Hwf Hk Hc Hnl) as HL.
       assert (Hacc1' : Forall2 (fun x pre => g x = kpath ((k ++ [c]) ++ pre)) acc1 (prefixes_from [] rest1)).
       { eapply Forall2_impl_In_r; [|exact Hacc1]. intros x y _ E. cbv beta in E.
         rewrite E, <- app_assoc. reflexivity. }
       assert (Hfin1 : g final = kpath ((k ++ [c]) ++ rest1)) by (rewrite Hfin, <- app_assoc; reflexivity).
       assert (Hknil : k ++ [c] <> []) by (intro E0; apply app_eq_nil in E0; destruct E0 as [_ E0]; discriminate E0).
-      cbn [length] in HN.
       destruct (f !! (k ++ [c])) as [n|] eqn:El.
       + (* the candidate exists *)
         destruct HL as [HL Hrl].
-        pose proof (Hsize _ _ El) as Hsz. rewrite app_length in Hsz. cbn [length] in Hsz.
         assert (Hlast : rest1 = [] -> acc1 = [] /\ post k [c] (kpath (k ++ [c]))).
         { intro E. subst rest1. inversion Hacc1; subst. split; [reflexivity|].
           apply post_stop; try assumption; try discriminate. left. reflexivity. }
@@ -939,8 +936,8 @@ Section Loop.
                   through_link s acc1 g' = false ->
                   exists rp o, rloop s acc1 g' final = Ok (rp, o) /\ post k (c :: rest1) rp).
         { intros g' Hnlc Hne1 Hacc' Hfin' Htl'.
-          destruct (IH (k ++ [c]) acc1 g' Hne1 Hrest1 ltac:(lia) Hkc
-                      (NL_snoc f k c Hnl Hnlc) ltac:(rewrite app_length; cbn [length]; lia)
+          destruct (IH (k ++ [c]) acc1 g' Hne1 Hrest1 Hkc
+                      (NL_snoc f k c Hnl Hnlc)
                       Hacc' Hfin' Htl') as (rp & o & Er & Hp).
           exists rp, o. split; [exact Er|]. apply post_cons_plain; try assumption.
           norm_keys. rewrite El. discriminate. }
@@ -960,10 +957,9 @@ Section Loop.
              destruct (to_abs_symlink_key k c t Hk Hc) as [Habs Ecomps].
              rewrite <- Ep in Habs, Ecomps.
              pose proof (lexkey_pg k t Hk) as Hlk.
-             pose proof (lexkey_length k t) as Hlkl. cbn [node_cost] in Hsz.
              pose proof (to_abs_symlink_cleaned t p (fun _ => Htc _ _ _ El)) as Hcl.
              assert (Hnllk : NL f (lexkey k t)).
-             { apply NL_of_lstat; [exact Hlk | lia |].
+             { apply NL_of_lstat; [exact Hlk |].
                intros pre post E. apply (existsb_false_In _ _ _ _ Hex).
                rewrite (cands_abs_cleaned _ Hcl Habs), Ecomps.
                destruct pre as [|x pre']; [left; reflexivity|]. right.
@@ -976,8 +972,8 @@ Section Loop.
                rewrite (join2_abs_tail _ pre Habs Hppg Hpne). rewrite Ecomps. reflexivity. }
              destruct (IH (lexkey k t) (q1 :: acc2)
                          (fun x => join2 (to_abs_symlink t p) (trim_prefix (g x) p))
-                         ltac:(discriminate) Hrest1 ltac:(lia) Hlk
-                         Hnllk ltac:(lia)) as (rp & o & Er & Hp).
+                         ltac:(discriminate) Hrest1 Hlk
+                         Hnllk) as (rp & o & Er & Hp).
              ++ eapply Forall2_impl_In_r; [|exact Hacc1']. intros x y Hy E.
                 apply in_prefixes in Hy. destruct Hy as [Hyne [l2 El2]].
                 apply Hg'; [exact Hyne | | exact E].
@@ -1019,7 +1015,7 @@ Proof.
   pose proof (abs_cleaned_nonempty p Hac) as Hne.
   pose proof (abs_cleaned_split_gen p Hac) as Hs.
   assert (Hw : walks f [] (split_sep p) fl (resolve f p fl)).
-  { exists walk_fuel, 0. split; [|exact Hdef].
+  { exists (walk_fuel + length p), 0. split; [|exact Hdef].
     unfold resolve. destruct p; [contradiction Hne; reflexivity | reflexivity]. }
   rewrite Hs in Hw. apply walks_trivial in Hw; [|reflexivity].
   destruct (comps p) as [|c cs]; [|exact Hw].
@@ -1030,23 +1026,23 @@ Lemma not_found_definite : forall e, is_not_found e = true -> definite (WErr e).
 Proof. intros e H. split; intro E; injection E as E; subst e; discriminate H. Qed.
 
 Lemma resolve_nolinkpar_definite : forall (f : fs) p,
-  wf f -> nolinkpar f p -> length (comps p) + 2 < walk_fuel -> definite (resolve f p false).
+  wf f -> nolinkpar f p -> definite (resolve f p false).
 Proof.
-  intros f p Hwf Hnlp Hlen.
+  intros f p Hwf Hnlp.
   destruct (direct_decidable f p (proj1 Hnlp)) as [Hd|Hnd].
-  - rewrite (resolve_direct f p false Hd Hlen (or_introl eq_refl)).
+  - rewrite (resolve_direct f p false Hd (or_introl eq_refl)).
     destruct (f !! comps p); [apply definite_found|].
     destruct (comps p); split; discriminate.
-  - destruct (resolve_nolinkpar_notfound f p false Hwf Hlen Hnlp Hnd) as (e & E & He).
+  - destruct (resolve_nolinkpar_notfound f p false Hwf Hnlp Hnd) as (e & E & He).
     rewrite E. apply not_found_definite. exact He.
 Qed.
 
 Lemma walks_resolve_nolinkpar : forall (f : fs) p r,
-  wf f -> nolinkpar f p -> length (comps p) + 2 < walk_fuel ->
+  wf f -> nolinkpar f p ->
   walks f [] (comps p) false r -> resolve f p false = r.
 Proof.
-  intros f p r Hwf Hnlp Hlen Hw.
-  pose proof (resolve_walks f p false (proj1 Hnlp) (resolve_nolinkpar_definite f p Hwf Hnlp Hlen)) as Hw'.
+  intros f p r Hwf Hnlp Hw.
+  pose proof (resolve_walks f p false (proj1 Hnlp) (resolve_nolinkpar_definite f p Hwf Hnlp)) as Hw'.
   exact (walks_fun _ _ _ _ _ _ Hw' Hw).
 Qed.
 
@@ -1119,9 +1115,7 @@ Proof.
   intros s [[m Hm] _].
   assert (Hd : direct (st_fs s) (kpath [])).
   { split; [apply kpath_pg_abs_cleaned; constructor|]. change (comps (kpath [])) with (@nil str). constructor. }
-  assert (Hb : length (comps (kpath [])) + 2 < walk_fuel).
-  { change (comps (kpath [])) with (@nil str). rewrite walk_fuel_eq. cbn [length]. lia. }
-  rewrite (fs_lstat_direct s _ Hd Hb). change (comps (kpath [])) with (@nil str).
+  rewrite (fs_lstat_direct s _ Hd). change (comps (kpath [])) with (@nil str).
   norm_keys. rewrite Hm. eexists. split; reflexivity.
 Qed.
 
@@ -1172,24 +1166,22 @@ Section RealPath.
   Qed.
 
   Hypothesis Htc : targets_clean f.
-  Hypothesis Hsize : size_ok f (length (comps n)).
   Hypothesis Htl : through_link s (cands (clean n)) (fun x => x) = false.
 
   Lemma rpath_post : comps n <> [] ->
-    exists rp, rpath s n = Ok rp /\ post s (length (comps n)) [] (comps n) rp.
+    exists rp, rpath s n = Ok rp /\ post s [] (comps n) rp.
   Proof.
     intro Hne. destruct (rpath_unfold Hne) as [Er Et]. rewrite Et in Htl.
-    destruct (rloop_inv s Hwf Htc (length (comps n)) Hsize (kpath (comps n))
+    destruct (rloop_inv s Hwf Htc (kpath (comps n))
                 (comps n) [] (map kpath (prefixes_from [] (comps n))) (fun x => x)
-                Hne comps_name_pg (le_n _) (Forall_nil _) (NL_root s Hwf)) as (rp & o & E & Hp).
-    - pose proof Hwf as [[m Hm] _]. pose proof (Hsize _ _ Hm) as H. cbn [length node_cost] in H. cbn [length]. lia.
+                Hne comps_name_pg (Forall_nil _) (NL_root s Hwf)) as (rp & o & E & Hp).
     - apply Forall2_map_same.
     - reflexivity.
     - exact Htl.
     - exists rp. rewrite Er, E. split; [reflexivity | exact Hp].
   Qed.
 
-  (** T1 (b): under the exclusions and the fuel bound resolution succeeds *)
+  (** T1 (b): under the exclusions resolution succeeds *)
   Lemma rpath_total : exists rp, rpath s n = Ok rp.
   Proof.
     destruct (nil_dec _ (comps n)) as [E|E].
@@ -1200,7 +1192,7 @@ Section RealPath.
   Variable rp : str.
   Hypothesis Hrp : rpath s n = Ok rp.
 
-  Lemma post_of_result : comps n <> [] -> post s (length (comps n)) [] (comps n) rp.
+  Lemma post_of_result : comps n <> [] -> post s [] (comps n) rp.
   Proof.
     intro Hne. destruct (rpath_post Hne) as (rp' & Er & Hp). rewrite Hrp in Er.
     injection Er as Er. subst rp'. exact Hp.
@@ -1222,7 +1214,7 @@ Section RealPath.
       split; [apply kpath_pg_abs_cleaned; constructor|].
       change (comps (kpath [])) with (@nil str). constructor.
     - destruct (post_of_result Hne0)
-        as (d & rest' & k' & E & Hne & Erp & Hk' & Hnl' & Hlen' & Hstop & Htr & Hmid).
+        as (d & rest' & k' & E & Hne & Erp & Hk' & Hnl' & Hstop & Htr & Hmid).
       cbn [app] in E.
       destruct (post_parts d rest' k' E Hk') as (Hall & Hr' & Hd).
       subst rp. split; [apply kpath_pg_abs_cleaned; exact Hall|].
@@ -1241,19 +1233,6 @@ Section RealPath.
              norm_keys. rewrite El in Hab. discriminate Hab.
   Qed.
 
-  Lemma rpath_bound : length (comps rp) + 2 < walk_fuel.
-  Proof.
-    destruct (nil_dec _ (comps n)) as [Ecs|Hne0].
-    - pose proof Hrp as Hrp'. rewrite (rpath_root Ecs) in Hrp'. injection Hrp' as E. subst rp.
-      change (comps (kpath [])) with (@nil str). rewrite walk_fuel_eq. cbn [length]. lia.
-    - destruct (post_of_result Hne0)
-        as (d & rest' & k' & E & Hne & Erp & Hk' & Hnl' & Hlen' & Hstop & Htr & Hmid).
-      cbn [app] in E.
-      destruct (post_parts d rest' k' E Hk') as (Hall & Hr' & Hd).
-      subst rp. rewrite (comps_kpath_pg _ Hall). rewrite app_length.
-      assert (length rest' <= length (comps n)) by (rewrite E, app_length; lia). lia.
-  Qed.
-
   (** T2 (b): [rp] names the entry the caller's name names under OS semantics
       (final component not followed), whenever the kernel's answer for the
       caller's name is not an artefact of the hop / fuel budgets *)
@@ -1265,9 +1244,9 @@ Section RealPath.
     destruct (nil_dec _ (comps n)) as [Ecs|Hne0].
     - pose proof Hrp as Hrp'. rewrite (rpath_root Ecs) in Hrp'. injection Hrp' as E. subst rp.
       rewrite (clean_abs_kpath n Habs), Ecs. reflexivity.
-    - pose proof rpath_nolinkpar as Hnlp. pose proof rpath_bound as Hb.
+    - pose proof rpath_nolinkpar as Hnlp.
       destruct (post_of_result Hne0)
-        as (d & rest' & k' & E & Hne & Erp & Hk' & Hnl' & Hlen' & Hstop & Htr & Hmid).
+        as (d & rest' & k' & E & Hne & Erp & Hk' & Hnl' & Hstop & Htr & Hmid).
       cbn [app] in E.
       destruct (post_parts d rest' k' E Hk') as (Hall & Hr' & Hd).
       assert (Hacn : abs_cleaned (clean n)).
@@ -1275,7 +1254,7 @@ Section RealPath.
       pose proof (resolve_walks f (clean n) false Hacn Hdef) as Hw.
       rewrite comps_clean, E in Hw.
       apply (Htr rest' false _ (or_introl Hne)) in Hw.
-      apply (walks_resolve_nolinkpar f rp _ Hwf Hnlp Hb).
+      apply (walks_resolve_nolinkpar f rp _ Hwf Hnlp).
       rewrite Erp, (comps_kpath_pg _ Hall). exact Hw.
   Qed.
 
@@ -1288,7 +1267,7 @@ Section RealPath.
     intros dcs b kd m Ecs Hres.
     assert (Hne0 : comps n <> []) by (rewrite Ecs; intro E0; apply app_eq_nil in E0; destruct E0 as [_ E0]; discriminate E0).
     destruct (post_of_result Hne0)
-      as (d & rest' & k' & E & Hne & Erp & Hk' & Hnl' & Hlen' & Hstop & Htr & Hmid).
+      as (d & rest' & k' & E & Hne & Erp & Hk' & Hnl' & Hstop & Htr & Hmid).
     cbn [app] in E.
     destruct (post_parts d rest' k' E Hk') as (Hall & Hr' & Hd).
     assert (Hdcs : Forall pg dcs).
@@ -1335,7 +1314,7 @@ Section RealPath.
          walks f [] (done ++ X) fl r -> walks f [] (k' ++ X) fl r).
   Proof.
     intro Hne0. destruct (post_of_result Hne0)
-      as (d & rest' & k' & E & Hne & Erp & Hk' & Hnl' & Hlen' & Hstop & Htr & Hmid).
+      as (d & rest' & k' & E & Hne & Erp & Hk' & Hnl' & Hstop & Htr & Hmid).
     exists d, rest', k'. repeat split; assumption.
   Qed.
   (** T2 (d'), in the caller's terms: once an ancestor is missing, the rest
@@ -1349,7 +1328,7 @@ Section RealPath.
     intros done c tail kd m Ecs Hres Habsent.
     assert (Hne0 : comps n <> []) by (rewrite Ecs; intro E0; apply app_eq_nil in E0; destruct E0 as [_ E0]; discriminate E0).
     destruct (post_of_result Hne0)
-      as (d & rest' & k' & E & Hne & Erp & Hk' & Hnl' & Hlen' & Hstop & Htr & Hmid).
+      as (d & rest' & k' & E & Hne & Erp & Hk' & Hnl' & Hstop & Htr & Hmid).
     cbn [app] in E.
     destruct (post_parts d rest' k' E Hk') as (Hall & Hr' & Hd).
     assert (Hdone : Forall pg done).
@@ -1396,17 +1375,16 @@ Lemma rloop_fix : forall s rest k acc,
   wf (st_fs s) ->
   rest <> [] -> Forall pg rest -> Forall pg k -> NL (st_fs s) k ->
   (forall pre post, rest = pre ++ post -> pre <> [] -> post <> [] -> not_link_at (st_fs s) (k ++ pre)) ->
-  length k + length rest + 2 < walk_fuel ->
   Forall2 (fun x pre => x = kpath (k ++ pre)) acc (prefixes_from [] rest) ->
   exists o, rloop s acc (fun x => x) (kpath (k ++ rest)) = Ok (kpath (k ++ rest), o).
 Proof.
-  intros s rest. induction rest as [|c rest1 IH]; intros k acc Hwf Hne Hrest Hk Hnl Hmid Hlen Hacc.
+  intros s rest. induction rest as [|c rest1 IH]; intros k acc Hwf Hne Hrest Hk Hnl Hmid Hacc.
   - contradiction Hne. reflexivity.
   - inversion Hrest as [|c' r' Hc Hrest1]; subst c' r'.
     rewrite prefixes_from_nil_cons in Hacc.
     inversion Hacc as [|q pre0 acc1 pres Hq Hacc1]; subst.
-    apply Forall2_map_r' in Hacc1. cbn [length] in Hlen.
-    pose proof (lstat_key s k c Hwf Hk Hc Hnl ltac:(lia)) as HL.
+    apply Forall2_map_r' in Hacc1.
+    pose proof (lstat_key s k c Hwf Hk Hc Hnl) as HL.
     set (g := fun x : str => x) in *.
     assert (Hq : g (kpath (k ++ [c])) = kpath (k ++ [c])) by reflexivity.
     remember (kpath (k ++ [c])) as p eqn:Ep.
@@ -1433,7 +1411,6 @@ Proof.
         -- apply Forall_app. split; [exact Hk | constructor; [exact Hc | constructor]].
         -- apply NL_snoc; assumption.
         -- intros pre post E Hpre Hpost. rewrite <- app_assoc. apply (Hmid (c :: pre) post); [rewrite E; reflexivity | discriminate | exact Hpost].
-        -- rewrite app_length. cbn [length] in *. lia.
         -- eapply Forall2_impl_In_r; [|exact Hacc1]. intros x y _ E. cbv beta in E.
            rewrite E, <- app_assoc. reflexivity.
     + destruct HL as (e & HLe & Hnf). rewrite <- Hq in HLe.
@@ -1441,10 +1418,10 @@ Proof.
 Qed.
 
 Lemma rpath_fix : forall s p,
-  wf (st_fs s) -> nolinkpar (st_fs s) p -> length (comps p) + 2 < walk_fuel ->
+  wf (st_fs s) -> nolinkpar (st_fs s) p ->
   rpath s p = Ok p.
 Proof.
-  intros s p Hwf [Hac Hnl] Hlen. pose proof Hac as [Hcl Habs].
+  intros s p Hwf [Hac Hnl]. pose proof Hac as [Hcl Habs].
   destruct (nil_dec _ (comps p)) as [E|Hne].
   - rewrite (rpath_root s p Hwf Habs E). f_equal. symmetry. apply abs_cleaned_root; assumption.
   - destruct (rpath_unfold s p Hwf Habs Hne) as [Er _]. rewrite Er.
@@ -1452,7 +1429,6 @@ Proof.
                 (comps_abs_pg p Habs) (Forall_nil _) (NL_root s Hwf)) as [o Eo].
     + intros pre post E _ Hpost. cbn [app].
       exact (proj1 (Forall_kprefixes _ _) Hnl pre post Hpost E).
-    + cbn [length]. lia.
     + apply Forall2_map_same.
     + cbn [app] in Eo. rewrite Eo. cbn [fst]. f_equal. apply kpath_comps. exact Hac.
 Qed.
@@ -1544,18 +1520,17 @@ Proof.
   destruct (rpath (w_st w) n); split; intro H; try discriminate H; injection H as H; subst; reflexivity.
 Qed.
 
-(** the hypotheses of T2: a well-formed tree within the fuel bound, and the
+(** the hypotheses of T2: a well-formed tree (of any size), and the
     recorded deviations D20 (relative name), D17 (link through link) and K2
     (unclean link target) excluded by their trigger predicates *)
 Record c16_hyps (q n : str) (w : world) : Prop := {
   h_wf : wf (st_fs (w_st w));
-  h_size : size_ok (st_fs (w_st w)) (length (comps n));
   h_abs : is_abs (clean n) = true;
   h_d17 : resolve_through_link (plain_cfg q) (cands (clean n)) (fun x => x) w = false;
   h_k2 : unclean_target w = false }.
 
 Definition c16_hypsb (q n : str) (w : world) : bool :=
-  wfb (st_fs (w_st w)) && size_okb (st_fs (w_st w)) (length (comps n)) &&
+  wfb (st_fs (w_st w)) &&
   is_abs (clean n) && negb (resolve_through_link (plain_cfg q) (cands (clean n)) (fun x => x) w) &&
   negb (unclean_target w).
 
@@ -1564,11 +1539,9 @@ Proof.
   intros q n w H. unfold c16_hypsb in H.
   apply andb_true_iff in H. destruct H as [H H5].
   apply andb_true_iff in H. destruct H as [H H4].
-  apply andb_true_iff in H. destruct H as [H H3].
-  apply andb_true_iff in H. destruct H as [H1 H2].
+  apply andb_true_iff in H. destruct H as [H1 H3].
   constructor.
   - apply wfb_ok. exact H1.
-  - apply size_okb_ok. exact H2.
   - exact H3.
   - apply negb_true_iff. exact H4.
   - apply negb_true_iff. exact H5.
@@ -1587,7 +1560,7 @@ Section Statements.
 
   Theorem real_path_succeeds : exists rp, real_path osfs n w = (MOk rp, w).
   Proof.
-    destruct (rpath_total (w_st w) n (h_wf _ _ _ H) Habs Htc (h_size _ _ _ H) Htl) as [rp E].
+    destruct (rpath_total (w_st w) n (h_wf _ _ _ H) Habs Htc Htl) as [rp E].
     exists rp. rewrite real_path_osfs, E. reflexivity.
   Qed.
 
@@ -1596,18 +1569,18 @@ Section Statements.
   Let Hrp' : rpath (w_st w) n = Ok rp := proj1 (real_path_ok_iff n w rp) Hrp.
 
   Theorem real_path_nolinkpar : nolinkpar f rp.
-  Proof. exact (rpath_nolinkpar (w_st w) n (h_wf _ _ _ H) Habs Htc (h_size _ _ _ H) Htl rp Hrp'). Qed.
+  Proof. exact (rpath_nolinkpar (w_st w) n (h_wf _ _ _ H) Habs Htc Htl rp Hrp'). Qed.
 
   Theorem real_path_same_entry :
     definite (resolve f (clean n) false) ->
     resolve f rp false = resolve f (clean n) false.
-  Proof. exact (rpath_same_entry (w_st w) n (h_wf _ _ _ H) Habs Htc (h_size _ _ _ H) Htl rp Hrp'). Qed.
+  Proof. exact (rpath_same_entry (w_st w) n (h_wf _ _ _ H) Habs Htc Htl rp Hrp'). Qed.
 
   Theorem real_path_final_unresolved : forall dcs b kd m,
     comps n = dcs ++ [b] ->
     resolve f (kpath dcs) true = WFound kd (Dir m) ->
     rp = kpath (kd ++ [b]).
-  Proof. exact (rpath_final_unresolved (w_st w) n (h_wf _ _ _ H) Habs Htc (h_size _ _ _ H) Htl rp Hrp'). Qed.
+  Proof. exact (rpath_final_unresolved (w_st w) n (h_wf _ _ _ H) Habs Htc Htl rp Hrp'). Qed.
 
   Theorem real_path_lexical_tail : comps n <> [] ->
     exists done tail k',
@@ -1616,21 +1589,21 @@ Section Statements.
       (length tail = 1 \/ f !! (k' ++ firstn 1 tail) = None) /\
       (forall X fl r, (X <> [] \/ fl = true) ->
          walks f [] (done ++ X) fl r -> walks f [] (k' ++ X) fl r).
-  Proof. exact (rpath_lexical_tail (w_st w) n (h_wf _ _ _ H) Habs Htc (h_size _ _ _ H) Htl rp Hrp'). Qed.
+  Proof. exact (rpath_lexical_tail (w_st w) n (h_wf _ _ _ H) Habs Htc Htl rp Hrp'). Qed.
   Theorem real_path_missing_tail : forall done c tail kd m,
     comps n = done ++ c :: tail ->
     resolve f (kpath done) true = WFound kd (Dir m) ->
     f !! (kd ++ [c]) = None ->
     rp = kpath (kd ++ c :: tail).
-  Proof. exact (rpath_missing_tail (w_st w) n (h_wf _ _ _ H) Habs Htc (h_size _ _ _ H) Htl rp Hrp'). Qed.
+  Proof. exact (rpath_missing_tail (w_st w) n (h_wf _ _ _ H) Habs Htc Htl rp Hrp'). Qed.
 End Statements.
 
 (** T3 on worlds *)
 Theorem real_path_fixpoint : forall p w,
-  wf (st_fs (w_st w)) -> nolinkpar (st_fs (w_st w)) p -> length (comps p) + 2 < walk_fuel ->
+  wf (st_fs (w_st w)) -> nolinkpar (st_fs (w_st w)) p ->
   real_path osfs p w = (MOk p, w).
 Proof.
-  intros p w Hwf Hnlp Hlen. rewrite real_path_osfs, (rpath_fix (w_st w) p Hwf Hnlp Hlen). reflexivity.
+  intros p w Hwf Hnlp. rewrite real_path_osfs, (rpath_fix (w_st w) p Hwf Hnlp). reflexivity.
 Qed.
 
 (** idempotence: the result of a resolution resolves to itself *)
@@ -1641,11 +1614,6 @@ Proof.
   intros q n w rp H Hrp. apply real_path_fixpoint.
   - exact (h_wf _ _ _ H).
   - exact (real_path_nolinkpar q n w H rp Hrp).
-  - pose proof (proj1 (real_path_ok_iff n w rp) Hrp) as Hrp'.
-    assert (Habs : is_abs n = true) by (rewrite <- is_abs_clean; exact (h_abs _ _ _ H)).
-    refine (rpath_bound (w_st w) n (h_wf _ _ _ H) Habs (targets_clean_of_flag w (h_k2 _ _ _ H))
-              (h_size _ _ _ H) _ rp Hrp').
-    rewrite <- (resolve_through_link_osfs q). exact (h_d17 _ _ _ H).
 Qed.
 
 (* ------------------------------------------------------------------ *)
@@ -1700,19 +1668,22 @@ Proof.
     + revert Hw. destruct (forallb _ _); intro Hw; discriminate Hw.
 Qed.
 
-Lemma resolve_key_no_efuel : forall (f : fs) KK T,
-  links_bounded f T -> Forall pg KK -> length KK + 40 * T + 3 <= walk_fuel ->
-  resolve f (kpath KK) false <> WErr EFUEL.
+(** the budget [walk_fuel + length p] of [resolve] pays for the pieces of the
+    name; what remains to be paid are the (at most 40) link targets spliced in *)
+Lemma resolve_no_efuel : forall (f : fs) p fl T,
+  links_bounded f T -> 40 * T + 2 <= walk_fuel ->
+  resolve f p fl <> WErr EFUEL.
 Proof.
-  intros f KK T HT Hpg Hb.
-  pose proof (kpath_pg_abs_cleaned KK Hpg) as Hac.
-  pose proof (abs_cleaned_split_gen _ Hac) as Hs. rewrite (comps_kpath_pg KK Hpg) in Hs.
-  pose proof (kpath_nonempty KK) as Hne.
-  unfold resolve. destruct (kpath KK) eqn:E; [contradiction Hne; reflexivity|]. rewrite Hs.
-  apply (walk_no_efuel walk_fuel f 0 [] _ false T HT); [lia|].
-  replace (40 - 0) with 40 by lia.
-  destruct KK; cbn [length] in *; lia.
+  intros f p fl T HT Hb. unfold resolve. destruct p as [|x p']; [discriminate|].
+  apply (walk_no_efuel _ f 0 [] _ fl T HT); [lia|].
+  pose proof (split_sep_length_le (x :: p')) as Hs.
+  replace (40 - 0) with 40 by lia. lia.
 Qed.
+
+Lemma resolve_key_no_efuel : forall (f : fs) KK T,
+  links_bounded f T -> Forall pg KK -> 40 * T + 2 <= walk_fuel ->
+  resolve f (kpath KK) false <> WErr EFUEL.
+Proof. intros f KK T HT _ Hb. exact (resolve_no_efuel f _ false T HT Hb). Qed.
 
 Lemma fs_lstat_efuel : forall s p, fs_lstat s p = Err EFUEL -> resolve (st_fs s) p false = WErr EFUEL.
 Proof.
@@ -1740,7 +1711,7 @@ Lemma rloop_no_efuel : forall s T final rest K acc g,
   rest <> [] -> Forall pg rest -> Forall pg K ->
   Forall2 (fun x pre => g x = kpath (K ++ pre)) acc (prefixes_from [] rest) ->
   g final = kpath (K ++ rest) ->
-  length K + length rest * (T + 1) + 40 * T + 4 <= walk_fuel ->
+  40 * T + 2 <= walk_fuel ->
   rloop s acc g final <> Err EFUEL.
 Proof.
   intros s T final rest. induction rest as [|c rest1 IH]; intros K acc g HT Hne Hrest HK Hacc Hfin Hb.
@@ -1751,10 +1722,8 @@ Proof.
     apply Forall2_map_r' in Hacc1.
     assert (HKc : Forall pg (K ++ [c])) by (apply Forall_app; split; [exact HK | constructor; [exact Hc | constructor]]).
     assert (Hknil : K ++ [c] <> []) by (intro E0; apply app_eq_nil in E0; destruct E0 as [_ E0]; discriminate E0).
-    assert (Hb1 : length K + (T + 1) + length rest1 * (T + 1) + 40 * T + 4 <= walk_fuel).
-    { cbn [length Nat.mul] in Hb. lia. }
     assert (Hres : resolve (st_fs s) (kpath (K ++ [c])) false <> WErr EFUEL).
-    { apply (resolve_key_no_efuel _ _ T HT HKc). rewrite app_length. cbn [length]. lia. }
+    { exact (resolve_key_no_efuel _ _ T HT HKc Hb). }
     assert (Hacc1' : Forall2 (fun x pre => g x = kpath ((K ++ [c]) ++ pre)) acc1 (prefixes_from [] rest1)).
     { eapply Forall2_impl_In_r; [|exact Hacc1]. intros x y _ E. cbv beta in E.
       rewrite E, <- app_assoc. reflexivity. }
@@ -1767,11 +1736,8 @@ Proof.
         -- rewrite (rloop_step_link s q acc1 g final fi t HL Hk Hrl).
            destruct rest1 as [|c1 rest2]; [inversion Hacc1; subst; discriminate|].
            destruct acc1 as [|q1 acc2]; [inversion Hacc1|].
-           destruct (fs_readlink_ok_lookup s _ t Hrl) as (k0 & m0 & Hl0).
-           pose proof (HT _ _ _ Hl0) as Htb.
            rewrite Hq.
            destruct (to_abs_symlink_key K c t HK Hc) as [Habs Ecomps]. rewrite <- Ep in Habs, Ecomps.
-           pose proof (lexkey_length K t) as Hlkl.
            apply (IH (lexkey K t)); try assumption.
            ++ discriminate.
            ++ apply lexkey_pg. exact HK.
@@ -1783,7 +1749,6 @@ Proof.
            ++ assert (Hne1 : c1 :: rest2 <> []) by (intro Hx; discriminate Hx).
               rewrite Hfin1, Ep. rewrite (trim_kpath _ _ Hknil Hne1). rewrite <- Ep.
               rewrite (join2_abs_tail _ _ Habs Hrest1 Hne1). rewrite Ecomps. reflexivity.
-           ++ lia.
         -- cbn [rloop]. rewrite HL, Hk, Hrl. intro E. injection E as E. subst e.
            apply Hres. apply fs_readlink_efuel. exact Hrl.
       * assert (Hk : fi_kind fi <> KLink) by (intro E; rewrite E in Ek; discriminate Ek).
@@ -1791,15 +1756,14 @@ Proof.
         destruct rest1 as [|c1 rest2]; [inversion Hacc1; subst; discriminate|].
         destruct acc1 as [|q1 acc2]; [inversion Hacc1|].
         apply (IH (K ++ [c])); try assumption.
-        -- discriminate.
-        -- rewrite app_length. cbn [length] in *. lia.
+        discriminate.
     + cbn [rloop]. rewrite HL. destruct (is_not_found e) eqn:Enf; [discriminate|].
       intro E. injection E as E. subst e. apply Hres. apply fs_lstat_efuel. exact HL.
 Qed.
 
 Lemma rpath_no_efuel : forall s n T,
   wf (st_fs s) -> is_abs n = true -> links_bounded (st_fs s) T ->
-  length (comps n) * (T + 1) + 40 * T + 4 <= walk_fuel ->
+  40 * T + 2 <= walk_fuel ->
   rpath s n <> Err EFUEL.
 Proof.
   intros s n T Hwf Habs HT Hb.
@@ -1809,7 +1773,7 @@ Proof.
     pose proof (rloop_no_efuel s T (kpath (comps n)) (comps n) []
                   (map kpath (prefixes_from [] (comps n))) (fun x => x) HT Hne
                   (comps_abs_pg n Habs) (Forall_nil _) (Forall2_map_same _ _ _ _) eq_refl
-                  ltac:(cbn [length]; lia)) as H.
+                  Hb) as H.
     destruct (rloop s _ _ _) as [a|e]; [discriminate|]. intro E. injection E as E. subst e. apply H. reflexivity.
 Qed.
 
@@ -1825,12 +1789,14 @@ Proof.
 Qed.
 
 (** T1 (c) on worlds: whatever the symlink topology (cycles, dangling links,
-    links through links, unclean targets), resolving an absolute name of [N]
-    components in a well-formed tree whose link targets have at most [T]
-    pieces does not exhaust the model's fuel when N*(T+1) + 40*T + 4 <= 4096 *)
+    links through links, unclean targets), resolving an absolute name - of any
+    length - in a well-formed tree whose link targets have at most [T] pieces
+    does not exhaust the model's fuel when 40*T + 2 <= 4096 (the budget of
+    [resolve] grows with the name; only the at most 40 spliced link targets
+    have to be paid from the constant part) *)
 Theorem real_path_no_efuel : forall n w T,
   wf (st_fs (w_st w)) -> is_abs n = true -> links_bounded (st_fs (w_st w)) T ->
-  length (comps n) * (T + 1) + 40 * T + 4 <= walk_fuel ->
+  40 * T + 2 <= walk_fuel ->
   fst (real_path osfs n w) <> MErr EFUEL.
 Proof.
   intros n w T Hwf Habs HT Hb. rewrite real_path_osfs. unfold res_to_m. cbn [fst].
@@ -1838,11 +1804,12 @@ Proof.
   destruct (rpath (w_st w) n) as [a|e]; [discriminate|]. intro E. injection E as E. subst e. apply H. reflexivity.
 Qed.
 
-(** T2 (b) with the fuel side of [definite] discharged by the size bound:
+(** T2 (b) with the fuel side of [definite] discharged by the bound on the
+    link targets:
     only the kernel's 40-hop limit remains as a side condition *)
 Theorem real_path_same_entry_bounded : forall q n w T rp,
   c16_hyps q n w -> links_bounded (st_fs (w_st w)) T ->
-  length (comps n) + 40 * T + 3 <= walk_fuel ->
+  40 * T + 2 <= walk_fuel ->
   fst (real_path osfs n w) = MOk rp ->
   resolve (st_fs (w_st w)) (clean n) false <> WErr ELOOP ->
   resolve (st_fs (w_st w)) rp false = resolve (st_fs (w_st w)) (clean n) false.
@@ -1877,10 +1844,10 @@ Proof.
 Qed.
 
 Lemma c16_hyps_of_triggers : forall q n w,
-  wf (st_fs (w_st w)) -> size_ok (st_fs (w_st w)) (length (comps n)) ->
+  wf (st_fs (w_st w)) ->
   triggers (plain_cfg q) (ORealPath n) w = [] -> c16_hyps q n w.
 Proof.
-  intros q n w Hwf Hsz Ht. destruct (triggers_nil_hyps q n w Ht) as (H1 & H2 & H3).
+  intros q n w Hwf Ht. destruct (triggers_nil_hyps q n w Ht) as (H1 & H2 & H3).
   constructor; assumption.
 Qed.
 
